@@ -135,6 +135,12 @@ func (hd *HeaderDirectives) StripRegularConditionals(header http.Header) {
 	hd.IfNoneMatch.SyncRemove(header)
 	hd.IfMatch.SyncRemove(header)
 
+	// A conditional whose value did not parse (an RFC 850 or asctime date, an empty tag) is still the
+	// client's conditional and must not reach the origin either: remove the fields by name.
+	for _, name := range []string{hd.IfModifiedSince.name, hd.IfUnmodifiedSince.name, hd.IfNoneMatch.name, hd.IfMatch.name} {
+		delete(header, name)
+	}
+
 	// We need to keep If-Range for Range requests
 }
 
